@@ -7,11 +7,11 @@ From NV.C19 Require Import Model Proofs Inst.
 From NV.gen Require Import Gen_C19.
 Open Scope N_scope.
 
-(* grun / gstep: the model instantiated with the decision expressions regenerated from gc.rs, integrity.rs, streaming.rs *)
-Notation grun hash cs min_age :=
-  (run hash gen_collectable gen_min_created gen_rdec gen_rinc gen_fgc_counts_writers gen_repair_counts_writers cs min_age).
-Notation gstep hash cs min_age :=
-  (step hash gen_collectable gen_min_created gen_rdec gen_rinc gen_fgc_counts_writers gen_repair_counts_writers cs min_age).
+(* grun / gstep (notations of Inst.v): the model instantiated with the decision expressions regenerated
+   from gc.rs, integrity.rs, streaming.rs:
+     grun hash cs min_age  = run  hash gen_collectable gen_min_created gen_rdec gen_rinc
+                                  gen_fgc_counts_writers gen_repair_counts_writers cs min_age
+     gstep hash cs min_age = step ... likewise *)
 
 (* ---- the chunker ---- *)
 Theorem C19_split_concat : forall (n : nat) (d : list N), (0 < n)%nat -> concat (split n d) = d.
@@ -96,9 +96,31 @@ Theorem C19_verify_detects_alteration : forall (hash : list N -> N) (cs : nat) (
    get s' id = RBytes d \/ exists rb, get s' id = RBytes rb /\ rb <> d /\ hash rb = hash d).
 Proof. exact g_verify_alter. Qed.
 
-(* ---- non-vacuity, and what failed before the repair ---- *)
-Definition toy_hash (d : list N) : N := fold_left (fun a x => a * 256 + x + 1) d 0.
+(* ---- schedules ----
+   Per-run fact Inst.gen_locked_spec: every read-modify-write of chunk records (store_chunk, the
+   publish step of finish, delete_artifact, gc's per-chunk test-and-delete, full_gc, repair) runs
+   under one lock, so a concurrent execution is the sequential run of an interleaving of the
+   clients' programs (a write being the sequence of its per-chunk writes).  For every set of
+   client programs and every schedule: *)
+Theorem C19_any_schedule : forall (hash : list N -> N) (cs : nat) (min_age : N) (threads : list (list op)) (sched : list nat),
+  (0 < cs)%nat ->
+  let ops := interleave threads sched in
+  let s := grun hash cs min_age init ops in
+  (exists x y, In x (seen s) /\ In y (seen s) /\ x <> y /\ hash x = hash y)
+  \/ forall id,
+       get s id = sget (srun sinit ops) id /\
+       verify hash s id = match aget (sarts (srun sinit ops)) id with Some _ => RBool true | None => RErr E_NOTFOUND end.
+Proof. exact g_any_schedule. Qed.
 
+(* F-C19-rc, the code before the repair: with the exists-check and the update as separate store
+   operations, two clients storing the same content leave a count of 1 for 2 holders (deleting one
+   of the artifacts then makes the chunk collectable while the other still lists it).  Reproduced on
+   the real code by the barrier stress of the harness before the repair. *)
+Theorem C19_unlocked_store_refuted :
+  exists xs, let '(rec, _, holders) := rrun xs in rec = Some 1 /\ holders = 2.
+Proof. exists [RSee 1; RSee 2; RAct 1; RAct 2]. vm_compute. split; reflexivity. Qed.
+
+(* ---- non-vacuity, and what failed before the repair ---- *)
 Example C19_run_nonvacuous :
   let ops := [OPut [1; 2; 3; 4; 5]; OOpen; OWrite 1 [1; 2]; OWrite 1 []; OWrite 1 [3; 4; 5; 9]; OFullGc; ORepair;
               OFinish 1; ODelete 0; OAdvance 5000; OGc [toy_hash [1;2;3;4]; toy_hash [5]; toy_hash [5; 9]]; OFullGc] in
@@ -127,3 +149,5 @@ Print Assumptions C19_full_gc_empties.
 Print Assumptions C19_verify_reports_missing.
 Print Assumptions C19_verify_detects_alteration.
 Print Assumptions C19_full_gc_must_count_writers_refuted.
+Print Assumptions C19_any_schedule.
+Print Assumptions C19_unlocked_store_refuted.
